@@ -988,9 +988,6 @@ def guarded():
         raise
     except vt.Hang as ex:
         raise InfraError('scheduler watchdog: {}'.format(ex))
-    except Exception as ex:   # noqa: a crash of the harness is not a verdict
-        import traceback
-        raise InfraError('harness error: ' + traceback.format_exc()[-1500:])
 
 
 if __name__ == '__main__':
